@@ -368,3 +368,49 @@ Definition tie_signatures : Prop :=
 
 Theorem gen_tie_signatures : tie_signatures.
 Proof. split; [exact gen_dunders | exact gen_defaults]. Qed.
+
+(* ------------------------------------------------------------------ unary dunders and the unary-operator factory *)
+
+Theorem gen_neg : forall op t, wf t -> call op src_neg [VWT t] = SOk (VWT (wneg t)).
+Proof.
+  intros op [v [[sw fw]|]] W; unfold wf in W; cbn in W; try subst sw; unfold call, wneg; cbn; rewrite ?shape_eqb_refl; reflexivity.
+Qed.
+
+Theorem gen_abs : forall op t, wf t ->
+    call op src_abs_dunder [VWT t] = SOk (VWT (wabs t)) /\ call op src_abs [VWT t] = SOk (VWT (wabs t)).
+Proof.
+  intros op [v [[sw fw]|]] W; unfold wf in W; cbn in W; try subst sw; unfold call, wabs; cbn; rewrite ?shape_eqb_refl; split; reflexivity.
+Qed.
+
+Theorem gen_pow : forall op t n, wf t -> call op src_pow [VWT t; VInt (Z.of_nat n)] = SOk (VWT (wpow n t)).
+Proof.
+  intros op [v [[sw fw]|]] n W; unfold wf in W; cbn in W; try subst sw; unfold call, wpow, valued.
+  all: cbn -[Z.of_nat Z.to_nat Z.leb]; rewrite (proj2 (Z.leb_le 0 (Z.of_nat n)) (Nat2Z.is_nonneg n)); cbn -[Z.of_nat Z.to_nat];
+    rewrite Nat2Z.id, ?shape_eqb_refl; reflexivity.
+Qed.
+
+(** f_compatible = factory_weighted_tensor_unary_operator(f, fill_value=fill): on a WeightedTensor it is [wmap]
+    (f on filled(fill), weights kept), on a plain tensor it is f itself (f returning ONE tensor) *)
+Theorem gen_factory : forall op fv fw fill,
+    (forall t, call op src_factory [VFun fv fw; sval_of_fill fill; VWT t; VNone; VNone] = of_res (rmap VWT (wmap fv fill t))) /\
+    (forall v, call op src_factory [VFun fv fw; sval_of_fill fill; VTen v; VNone; VNone] = of_res (rmap VTen (fv v))).
+Proof.
+  intros op fv fw fill. split.
+  - intros t. unfold call, wmap; destruct fill; cbn;
+      match goal with |- context [fv ?x] => destruct (fv x) as [r|[]] end; cbn; reflexivity.
+  - intros v. unfold call; destruct fill; cbn; destruct (fv v) as [r|[]]; cbn; reflexivity.
+Qed.
+
+Definition tie_unary : Prop :=
+  (forall op t, wf t -> call op src_neg [VWT t] = SOk (VWT (wneg t))) /\
+  (forall op t, wf t -> call op src_abs_dunder [VWT t] = SOk (VWT (wabs t)) /\ call op src_abs [VWT t] = SOk (VWT (wabs t))) /\
+  (forall op t n, wf t -> call op src_pow [VWT t; VInt (Z.of_nat n)] = SOk (VWT (wpow n t))) /\
+  (forall op fv fw fill,
+    (forall t, call op src_factory [VFun fv fw; sval_of_fill fill; VWT t; VNone; VNone] = of_res (rmap VWT (wmap fv fill t))) /\
+    (forall v, call op src_factory [VFun fv fw; sval_of_fill fill; VTen v; VNone; VNone] = of_res (rmap VTen (fv v)))).
+
+Theorem gen_tie_unary : tie_unary.
+Proof.
+  unfold tie_unary. repeat match goal with |- _ /\ _ => split end; intros;
+    [now apply gen_neg | now apply gen_abs | now apply gen_pow | apply gen_factory].
+Qed.
